@@ -11,16 +11,18 @@ import (
 
 // slashCollapseVerdict decides, from the shape of a function body, whether it collapses
 // runs of '/' of ANY length into one. Accepted idioms (enumerated from the repository):
-//   (a) <regexp>.ReplaceAllString(x, "/") where the receiver is a package-level variable
-//       initialised with regexp.MustCompile(<constant>) and the constant's syntax tree is
-//       `/+`, `/{2,}`, `//+` ... (only '/' literals, unbounded repetition, minimum <= 2);
-//   (b) a loop `for strings.Contains(p, "//") { p = strings.ReplaceAll(p, "//", "/") }`.
+//
+//	(a) <regexp>.ReplaceAllString(x, "/") where the receiver is a package-level variable
+//	    initialised with regexp.MustCompile(<constant>) and the constant's syntax tree is
+//	    `/+`, `/{2,}`, `//+` ... (only '/' literals, unbounded repetition, minimum <= 2);
+//	(b) a loop `for strings.Contains(p, "//") { p = strings.ReplaceAll(p, "//", "/") }`.
+//
 // A single strings.ReplaceAll(x, "//", "/") outside such a loop is recognised as the
 // NON-collapsing form ("///" -> "//"). Anything else is reported as not recognised.
 type slashVerdict struct {
 	Collapses  bool
-	SinglePass bool   // recognised single-pass replace (does not collapse runs >= 3)
-	None       bool   // no slash handling at all
+	SinglePass bool // recognised single-pass replace (does not collapse runs >= 3)
+	None       bool // no slash handling at all
 	Why        string
 	Pos        token.Pos
 }
